@@ -209,7 +209,8 @@ impl<const P: u8, const G: i8> AsyncDut<P, G> {
             Ok(S::NoAck) => OpResult::NoAck,
             Ok(S::RxComplete) => OpResult::RxComplete,
             Err(async_device::Error::Radio(_)) => OpResult::RadioErr,
-            Err(async_device::Error::Mac(lorawan_device::mac::Error::PayloadTooLarge)) => OpResult::TooLarge,
+            // matched by name so that the harness also builds against a tree without that variant
+            Err(async_device::Error::Mac(e)) if format!("{e:?}") == "PayloadTooLarge" => OpResult::TooLarge,
             Err(async_device::Error::Mac(_)) => OpResult::NotJoined,
         }
     }
@@ -448,7 +449,7 @@ impl<const P: u8, const G: i8> NbDut<P, G> {
                     // otherwise the application retries the event below (the fault is consumed)
                 }
                 Err(nb_device::Error::State(s)) => return OpResult::StateErr(format!("{s:?}")),
-                Err(nb_device::Error::Mac(lorawan_device::mac::Error::PayloadTooLarge)) => return OpResult::TooLarge,
+                Err(nb_device::Error::Mac(e)) if format!("{e:?}") == "PayloadTooLarge" => return OpResult::TooLarge,
                 Err(nb_device::Error::Mac(_)) => return OpResult::NotJoined,
             }
             // decide the next event
